@@ -129,12 +129,12 @@ Fixpoint btoks (n : node) : list btok :=
 Definition btoks_list (l : list node) : list btok := flat_map btoks l.
 
 Lemma angleify_tag k sy body : angleify (NTag k sy body) = NTag k (angleify_syn sy) (angleify_list body).
-Proof. cbn [angleify]. f_equal. induction body as [|x l IH]; [reflexivity|]. cbn [angleify_list map]. rewrite <- IH. reflexivity. Qed.
+Proof. reflexivity. Qed.
 Lemma angleify_font c q body : angleify (NFont c q body) = NFont c q (angleify_list body).
-Proof. cbn [angleify]. f_equal. induction body as [|x l IH]; [reflexivity|]. cbn [angleify_list map]. rewrite <- IH. reflexivity. Qed.
+Proof. reflexivity. Qed.
 Lemma btoks_inner body :
   (fix go (l : list node) : list btok := match l with [] => [] | x :: l' => btoks x ++ go l' end) body = btoks_list body.
-Proof. induction body as [|x l IH]; [reflexivity|]. cbn [btoks_list flat_map]. rewrite <- IH. reflexivity. Qed.
+Proof. induction body as [|x l IH]; [reflexivity|]. unfold btoks_list. cbn [flat_map]. fold (btoks_list l). rewrite <- IH. reflexivity. Qed.
 Lemma markup_tag k sy body : markup_node (NTag k sy body) = negb (match sy with BraceShort => true | _ => false end) && forallb markup_node body.
 Proof. reflexivity. Qed.
 Lemma markup_font c q body : markup_node (NFont c q body) = forallb markup_node body.
@@ -184,14 +184,15 @@ Proof.
     destruct (open_brace_long k) as (O1 & O2 & O3 & O4).
     assert (IT : forall s, items s (NTag k (angleify_syn sy) (angleify_list body)) = items s (NTag k sy body)).
     { intro s. rewrite !items_tag. apply P6. }
-    destruct sy; try discriminate; cbn [btoks angleify_syn is_brace negb andb]; rewrite btoks_inner;
-    try (rewrite !render_app, !render_chars, !flat_map_app, !flat_final_chars, <- P1, P3;
-         assert (O : lacks 123 (open_tag k _) /\ no_cr (open_tag k _) /\ lacks 123 (close_tag k _) /\ no_cr (close_tag k _))
-           by (destruct k; repeat split);
-         destruct O as (Q1 & Q2 & Q3 & Q4);
-         repeat split; auto;
-         [ repeat (apply Forall_app; split); auto using okc_chars
-         | repeat (first [assumption | apply no_cr_app]) ]).
+    destruct sy; try discriminate; cbn [btoks angleify_syn is_brace negb andb] in *; rewrite btoks_inner.
+    1-3: (rewrite !render_app, !render_chars, !flat_map_app, !flat_final_chars, <- P1, P3;
+          match goal with |- context [open_tag ?k0 ?sy] =>
+            assert (O : lacks 123 (open_tag k0 sy) /\ no_cr (open_tag k0 sy) /\ lacks 123 (close_tag k0 sy) /\ no_cr (close_tag k0 sy))
+              by (destruct k0; repeat split) end;
+          destruct O as (Q1 & Q2 & Q3 & Q4);
+          split; [reflexivity|]; split; [repeat (apply Forall_app; split); auto using okc_chars|];
+          split; [reflexivity|]; split; [exact P4|]; split; [reflexivity|]; split; [exact IT|];
+          repeat (first [assumption | apply no_cr_app])).
     (* BraceLong *)
     change (BB k false :: btoks_list body ++ [BB k true]) with ([BB k false] ++ btoks_list body ++ [BB k true]).
     rewrite !render_app, !flat_map_app. cbn [render flat_map render1 final1]. rewrite !app_nil_r.
@@ -287,11 +288,11 @@ Proof.
     - cbn. tauto.
     - intros k sy body IH. rewrite markup_tag.
       assert (E1 : forall p, node_has p (NTag k sy body) = p (NTag k sy body) || existsb (node_has p) body).
-      { intro p. cbn [node_has]. f_equal. induction body as [|x l IHl]; [reflexivity|]. cbn [existsb]. rewrite <- IHl. reflexivity. }
+      { intro p. reflexivity. }
       rewrite !E1. destruct sy; cbn [negb andb orb]; try (rewrite IH; tauto). split; [discriminate|intros [A _]; discriminate].
     - intros c q body IH. rewrite markup_font.
       assert (E1 : forall p, node_has p (NFont c q body) = p (NFont c q body) || existsb (node_has p) body).
-      { intro p. cbn [node_has]. f_equal. induction body as [|x l IHl]; [reflexivity|]. cbn [existsb]. rewrite <- IHl. reflexivity. }
+      { intro p. reflexivity. }
       rewrite !E1. cbn [orb]. exact IH.
     - intros k sy. cbn. split; [discriminate|]. intros [_ A]. destruct sy; discriminate.
     - cbn. tauto.
@@ -299,3 +300,33 @@ Proof.
   induction (f_cues f) as [|c cs IH]; [cbn; tauto|].
   cbn [forallb existsb]. rewrite andb_true_iff, !orb_false_iff. rewrite N. tauto.
 Qed.
+
+(* ------------------------------------------------------------------ the statements of Properties/C10.v *)
+Theorem roundtrip_partial f : wf_file f = true ->
+  trigger_brace_short f = false -> trigger_stray_end f = false -> trigger_backslash f = false ->
+  read_cues_file (print_file f) = Ok (cues f).
+Proof. intros W A B C. apply roundtrip_markup_file; auto. apply markup_iff_no_trigger. auto. Qed.
+
+Theorem roundtrip_stringio_partial f : wf_file f = true -> f_crlf f = false ->
+  trigger_brace_short f = false -> trigger_stray_end f = false -> trigger_backslash f = false ->
+  read_cues (print_file f) = Ok (cues f).
+Proof. intros W E A B C. apply roundtrip_markup_lf; auto. apply markup_iff_no_trigger. auto. Qed.
+
+Theorem tags_scope_partial p :
+  forallb markup_node p = true -> forallb wf_node p = true ->
+  forallb (fun l => negb (all_ws l)) (payload_lines p) = true ->
+  has_sub [92;110;92;114] (print_nodes p) = false ->
+  exists kids, parse_text true (rewrite_text (print_nodes p)) = Ok kids /\ flat_list st0 kids = items_list st0 p.
+Proof.
+  intros Hm Hw Hl Hb. destruct (markup_payload_good p Hm Hw Hb) as [G Cr].
+  rewrite rewrite_text_rw. rewrite payload_lines_split in Hl.
+  pose proof (strip_lines (print_nodes p) false Cr Hl) as S. cbn iota in S. rewrite app_nil_r in S. rewrite S. exact G.
+Qed.
+
+Theorem tolerates_partial f f' :
+  wf_file f = true -> wf_file f' = true ->
+  trigger_brace_short f = false -> trigger_stray_end f = false -> trigger_backslash f = false ->
+  trigger_brace_short f' = false -> trigger_stray_end f' = false -> trigger_backslash f' = false ->
+  Forall2 same_content (f_cues f) (f_cues f') ->
+  read_cues_file (print_file f) = read_cues_file (print_file f') /\ read_cues_file (print_file f) = Ok (cues f).
+Proof. intros. apply tolerates_markup; auto; apply markup_iff_no_trigger; auto. Qed.
